@@ -5,37 +5,45 @@
 (* about every path that needs a name (in an order the Go map iteration      *)
 (* picks), then mutates the import declarations, then renders.  A call may   *)
 (* fail.  MutateFirst = TRUE is the mistake of touching the tree before all  *)
-(* names are known.                                                          *)
+(* names are known.  A resolver object may outlive the attempt (the          *)
+(* syntax-based identifier resolver memoises a table per file): named is     *)
+(* what it knows, cached that it considers its table complete.               *)
+(* CacheOnFailure = TRUE is the mistake of keeping the half-built table of   *)
+(* a failed attempt.                                                         *)
 (***************************************************************************)
 EXTENDS Integers, Sequences, FiniteSets, TLC
 
 CONSTANTS NCalls,        \* how many resolver calls the clean run makes
-          MutateFirst
-VARIABLES pending, failAt, made, mutated, output, result, attempt
-vars == <<pending, failAt, made, mutated, output, result, attempt>>
+          MutateFirst, CacheOnFailure
+VARIABLES pending, failAt, made, mutated, output, result, attempt, named, cached
+vars == <<pending, failAt, made, mutated, output, result, attempt, named, cached>>
 
 Init == /\ pending = 1..NCalls /\ failAt \in 0..NCalls      \* 0 = no fault
         /\ made = 0 /\ mutated = FALSE /\ output = FALSE /\ result = "running" /\ attempt = 1
+        /\ named = {} /\ cached = FALSE
 
 Mutate == /\ result = "running" /\ ~mutated
           /\ (MutateFirst \/ pending = {})
-          /\ mutated' = TRUE /\ UNCHANGED <<pending, failAt, made, output, result, attempt>>
+          /\ mutated' = TRUE /\ UNCHANGED <<pending, failAt, made, output, result, attempt, named, cached>>
 
 \* the k-th call overall fails if k = failAt (first attempt only)
 Call(p) == /\ result = "running" /\ p \in pending
            /\ made' = made + 1
            /\ IF attempt = 1 /\ made + 1 = failAt
-              THEN result' = "error" /\ UNCHANGED <<pending, mutated, output>>
-              ELSE pending' = pending \ {p} /\ UNCHANGED <<result, mutated, output>>
+              THEN result' = "error" /\ cached' = CacheOnFailure /\ UNCHANGED <<pending, mutated, output, named>>
+              ELSE pending' = pending \ {p} /\ named' = named \cup {p} /\ UNCHANGED <<result, mutated, output, cached>>
            /\ UNCHANGED <<failAt, attempt>>
 
 Render == /\ result = "running" /\ pending = {} /\ mutated
-          /\ output' = TRUE /\ result' = "ok" /\ UNCHANGED <<pending, failAt, made, mutated, attempt>>
+          /\ output' = TRUE /\ result' = "ok" /\ UNCHANGED <<pending, failAt, made, mutated, attempt, named, cached>>
 
-\* after a failure: a fresh restorer and a working resolver on the same tree
+\* after a failure: a fresh restorer / decorator on the same tree, the resolver objects working again;
+\* a resolver that believes its table complete is not asked again
 Retry == /\ result = "error" /\ attempt = 1
-         /\ attempt' = 2 /\ pending' = 1..NCalls /\ made' = 0 /\ result' = "running"
-         /\ UNCHANGED <<failAt, mutated, output>>
+         /\ attempt' = 2 /\ made' = 0 /\ result' = "running"
+         /\ pending' = IF cached THEN {} ELSE 1..NCalls
+         /\ named' = IF cached THEN named ELSE {}
+         /\ UNCHANGED <<failAt, mutated, output, cached>>
 
 Next == Mutate \/ (\E p \in pending : Call(p)) \/ Render \/ Retry
 Spec == Init /\ [][Next]_vars
@@ -45,4 +53,6 @@ ErrorReturned == (attempt = 1 /\ failAt # 0 /\ made >= failAt) => result = "erro
 NoOutputOnError == result = "error" => ~output
 TreeUnchangedOnError == result = "error" => ~mutated
 RetrySucceeds == (attempt = 2 /\ result = "ok") => (output /\ mutated)
+\* the retry is the failure-free run: every name is known when it renders
+RetryComplete == result = "ok" => named = 1..NCalls
 =============================================================================
